@@ -1455,6 +1455,11 @@ func (cs *ConsensusState) addVote(vote *types.Vote, peerKey string) (added bool,
 			// fmt.Errorf("tryAddVote: Wrong height, not a LastCommit straggler commit.")
 			return added, ErrVoteHeightMismatch
 		}
+		if cs.LastCommit == nil {
+			// Height 1 has no last commit: a "straggler precommit" for height 0 can only come from a
+			// misbehaving peer.  (VoteSet.AddVote panics on a nil set, and this goroutine has no recover.)
+			return added, ErrVoteHeightMismatch
+		}
 		added, err = cs.LastCommit.AddVote(vote)
 		if added {
 			log.Debug("Added to lastPrecommits: " + cs.LastCommit.StringShort())
